@@ -9,7 +9,9 @@ import (
 	"context"
 	"k8s.io/apimachinery/pkg/runtime"
 
+	"k8s.io/apimachinery/pkg/api/meta"
 	metav1 "k8s.io/apimachinery/pkg/apis/meta/v1"
+	"k8s.io/apimachinery/pkg/runtime/schema"
 	"k8s.io/apimachinery/pkg/types"
 	"k8s.io/utils/ptr"
 	"sigs.k8s.io/controller-runtime/pkg/reconcile"
@@ -30,7 +32,7 @@ import (
 // policy, only once the XR is gone.
 //
 //gosym:harness
-//gosym:cover finalizer-removed waiting-foreground xr-deleted xr-lingers fault-hit
+//gosym:cover finalizer-removed waiting-foreground xr-deleted xr-lingers fault-hit no-match-error
 func HarnessC08Claim() {
 	s := kube.New()
 	cm := claim.New(claim.WithGroupVersionKind(zzClaimGVK))
@@ -93,6 +95,12 @@ func HarnessC08Claim() {
 
 	s.FaultAt = zz.Choose("fault.at", 7) - 1
 	s.FaultKind = 1 + zz.Choose("fault.kind", 3)
+	// a failing read may also fail the way reads do while the API machinery is
+	// catching up with CRD changes: the REST mapper has no match for the kind
+	if s.FaultAt >= 0 && s.FaultKind == kube.FaultErrNoEffect && zz.Bool("fault.readFailsWithNoMatch") {
+		zz.Cover("no-match-error")
+		s.ReadFaultErr = &meta.NoKindMatchError{GroupKind: schema.GroupKind{Group: "example.org", Kind: "XR"}, SearchedVersions: []string{"v1"}}
+	}
 	opts := []ReconcilerOption{}
 	if zz.Bool("syncer.ssa") {
 		opts = append(opts, WithCompositeSyncer(NewServerSideCompositeSyncer(s, names.NewNameGenerator(s))))
